@@ -159,12 +159,16 @@ func c07markGen(r *rand.Rand, thorough bool, emit func(c, cat string)) {
 		cat := "disjoint"
 		manyLabels := i%60 == 7 // more than 256 distinct labels in one file (the label table has no small limit)
 		if manyLabels {
-			nr, kind = 330, 0
+			nr, kind = 420, 0
 		}
 		for j := 0; j < nr; j++ {
 			lo := c07randVal(r)
 			var span *big.Int
-			switch r.Intn(5) {
+			sk := r.Intn(5)
+			if manyLabels && sk == 3 {
+				sk = 4 // no huge ranges here: most of the 420 must survive the disjointness filter
+			}
+			switch sk {
 			case 0:
 				span = big.NewInt(0) // single address
 			case 1:
